@@ -1291,6 +1291,7 @@ func main() {
 		results[i] = nil
 	}
 
+	clockTickFamily(r) // sequential: the clock of package signer is process-global
 	r.Extra["histories"] = total
 	r.Extra["histories_whose_judged_round_trip_verified"] = verified
 	if verified == 0 {
